@@ -443,6 +443,10 @@ def run_case(spec, work):
         th['q1_min_th'] = 0.0
         th['qdiff_min_th'] = 0.0
         th['log2_fold_min_th'] = float(rng.choice([0.0, -1.0]))
+        # every strict threshold stays above its floor (the code rejects
+        # anything else)
+        th['log2_fold_th'] = max(th['log2_fold_th'],
+                                 th['log2_fold_min_th'] + 0.2)
         ctx.bump('gene_list_approx_floors_off_cases')
     if spec.get('tune_p'):
         # put the p threshold where the step-down's running maximum, not
